@@ -79,9 +79,55 @@ def check(n, lab, missing):
             except KeyError as e: return 'normalize looked up a base that was not merged yet: KeyError %s' % e
     return None
 
+def callers(rnd):
+    """a caller that builds its graph from schema objects: the REAL edb.schema.delta.sort_by_inheritance on stand-in objects that only know their bases / ancestors.
+    All inheritance DAGs on <= 4 types (bases among earlier types), every subset of the types in several input orders (the function is handed an arbitrary subset of a
+    hierarchy, e.g. the objects altered by a migration): each object comes after every one of its ancestors that is present, each object exactly once."""
+    from edb.schema import delta as sd
+    class Coll:
+        def __init__(self, xs): self.xs = tuple(xs)
+        def objects(self, schema): return self.xs
+    class Ty:
+        def __init__(self, name): self.name = name; self.bases = []; self.anc = []
+        def get_bases(self, schema): return Coll(self.bases)
+        def get_ancestors(self, schema): return Coll(self.anc)
+        def __repr__(self): return self.name
+    n_runs = 0
+    for n in range(1, 5):
+        slots = [(a, b) for a in range(n) for b in range(a)]          # a may extend an earlier b
+        for bits in itertools.product([0, 1], repeat=len(slots)):
+            tys = [Ty('T%d' % i) for i in range(n)]
+            for (a, b), on in zip(slots, bits):
+                if on: tys[a].bases.append(tys[b])
+            for t in tys:                                               # ancestors: transitive closure, nearest first
+                seen = []; todo = list(t.bases)
+                while todo:
+                    x = todo.pop(0)
+                    if x not in seen: seen.append(x); todo.extend(x.bases)
+                t.anc = seen
+            for k in range(1, n + 1):
+                for sub in itertools.combinations(range(n), k):
+                    orders = [sub, tuple(reversed(sub))] + ([tuple(rnd.sample(sub, len(sub)))] if k > 2 else [])
+                    for order in orders:
+                        n_runs += 1
+                        objs = [tys[i] for i in order]
+                        try: res = list(sd.sort_by_inheritance(None, objs))
+                        except Exception as e: return n_runs, dict(problem='sort_by_inheritance raised %r' % (e,), bases={t.name: [b.name for b in t.bases] for t in tys}, input=[t.name for t in objs])
+                        if sorted(map(repr, res)) != sorted(map(repr, objs)):
+                            return n_runs, dict(problem='result %r is not a permutation of the input' % (res,), bases={t.name: [b.name for b in t.bases] for t in tys}, input=[t.name for t in objs])
+                        pos = {t: i for i, t in enumerate(res)}
+                        for t in objs:
+                            for a in t.anc:
+                                if a in pos and pos[a] > pos[t]:
+                                    return n_runs, dict(problem='%r is ordered before its ancestor %r (result %r)' % (t, a, res), bases={x.name: [b.name for b in x.bases] for x in tys}, input=[x.name for x in objs])
+    return n_runs, None
+
 def main():
     seed, nmax, nrand, nrmax, out = int(sys.argv[1]), int(sys.argv[2]), int(sys.argv[3]), int(sys.argv[4]), sys.argv[5]
     rnd = random.Random(seed); res = dict(graphs=0, failure=None)
+    res['caller_runs'], cf = callers(rnd)
+    if cf:
+        res['failure'] = dict(kind='sort_by_inheritance', **cf); json.dump(res, open(out, 'w'), indent=1); return
     def go(n, lab, missing):
         res['graphs'] += 1
         f = check(n, lab, missing)
